@@ -302,7 +302,75 @@ def spec_to_code(ctx, gridmod, cfgs, which):
 
 
 # --------------------------------------------------------------- code -> spec
+def large_grids(ctx, gridmod, which):
+    """Scale law of FlowGrid.tla for a grid made of ONE flow path (a serpentine through every cell, 1000+ cells, flow paths longer
+    than 1000 steps, cell counts that are multiples of 1024): the k-th cell of the path accumulates the first k+1 field values,
+    the area of an outlet at position K is the stretch of the path between the last inlet above it and K, and the cell at
+    position j lies K - j orthogonal steps from the outlet."""
+    Grid, Catchment = gridmod.Grid, gridmod.Catchment
+    rng = np.random.default_rng(ctx.seed + 611)
+    for nr, nc in ((32, 32), (40, 40), (41, 25), (16, 64)):
+        n = nr * nc
+        fd, path = [], []
+        for r in range(nr):
+            cols = range(nc) if r % 2 == 0 else range(nc - 1, -1, -1)
+            path.extend(r * nc + cc for cc in cols)
+            for cc in range(nc):
+                last = (cc == nc - 1) if r % 2 == 0 else (cc == 0)
+                fd.append(4 if last else (1 if r % 2 == 0 else 16))
+        fd[path[-1]] = 0
+        case = {"serpentine": [nr, nc]}
+        try:
+            if which == "C11":
+                for kind in ("unit", "rand"):
+                    w = [1] * n if kind == "unit" else [int(v) for v in rng.integers(1, 50, size=n)]
+                    out, same, _acc = observe_acc(gridmod, Grid, nr, nc, fd, None if kind == "unit" else w)
+                    tot = 0
+                    for k, cell in enumerate(path[:-1]):
+                        tot += w[cell]
+                        if out[cell] != tot:
+                            ctx.violation("accumulate:long-path", "%d x %d serpentine, %s field: cell %d (position %d of the path) accumulates %s, the sum of the field up to it is %d" %
+                                          (nr, nc, kind, cell, k, out[cell], tot), dict(case, field=kind, position=k))
+                            break
+                    if not same:
+                        ctx.violation("accumulate:argument-modified", "input grids changed", case)
+            else:
+                cat = Catchment("c", make_grid(Grid, nr, nc, fd))
+                K = n - 1 - int(rng.integers(0, 5))
+                for ninl in (0, 70, 3):
+                    js = sorted(set(int(v) for v in rng.integers(5, K - 1100 if (ninl == 3 and K > 1200) else K - 40, size=ninl)))
+                    inlets = [path[j] for j in js]
+                    o = path[K]
+                    with Watchdog(60):
+                        cat.delineate_area(o, inlets if inlets else None)
+                    jmax = js[-1] if js else -1
+                    got = set(int(c) for c in cat.idxcells_area) - {o} - ({path[jmax]} if js else set())
+                    exp = set(path[jmax + 1:K])
+                    if got != exp:
+                        ctx.violation("delineate_area:large-grid", "%d x %d serpentine, outlet at position %d, %d inlets (the last at position %d): %d cells, expected the %d cells in between" %
+                                      (nr, nc, K, len(js), jmax, len(got), len(exp)), dict(case, outlet_position=K, inlet_positions=js[-5:]))
+                        continue
+                    with Watchdog(60):
+                        cat.compute_flowpathlengths()
+                    pos = {c: j for j, c in enumerate(path)}
+                    for a, b, L in cat.flowpathlengths.values:
+                        j = pos[int(a)]
+                        if j <= jmax or j >= K:
+                            continue
+                        if int(b) != o or abs(float(L) - (K - j)) > 1e-6:
+                            ctx.violation("flowpathlengths:large-catchment", "%d x %d serpentine: cell at position %d ends at cell %d with length %r, expected the outlet %d at %d steps" %
+                                          (nr, nc, j, int(b), float(L), o, K - j), dict(case, outlet_position=K, position=j))
+                            break
+        except TimeoutError as e:
+            ctx.violation("flowgrid:hang", str(e), case)
+        except Exception as e:
+            ctx.violation("flowgrid:large-grid:exception", repr(e), case)
+        ctx.count(case, True)
+    ctx.part("large_grids", serpentines=4)
+
+
 def code_to_spec(ctx, gridmod, ngrids, which, maxdim):
+    large_grids(ctx, gridmod, which)
     Grid, Catchment = gridmod.Grid, gridmod.Catchment
     rng = np.random.default_rng(ctx.seed + (6 if which == "C06" else 11))
     codes = [32, 64, 128, 16, 0, 1, 8, 4, 2, 3]
